@@ -48,6 +48,12 @@ def case_generators(rep):
         try:
             for kind in ("line", "rectangle", "cube", "grid2", "grid3", "circle", "triangle"):
                 gen_mesh(rng, kind)
+            # every argument of the grid generator: both meshgrid indexings, one to three axes
+            for nax in (1, 2, 3):
+                xs = [np.cumsum(rng.uniform(0.2, 1, int(rng.integers(3, 5)) + k)) for k in range(nax)]
+                for indexing in ("ij", "xy"):
+                    fem.Grid(*xs, indexing=indexing)
+                    run.units["generator:Grid:%s:%d" % (indexing, nax)] += 1
             fem.Circle(radius=1.0, n=3, sections=[0, 90])
             fem.Circle(radius=2.0, n=4, sections=[0, 90, 180, 270], value=0.2, exponent=3)
             for order in (2, 3, 4, 5):
